@@ -399,6 +399,9 @@ def replay(rep):
         try:
             fn(E)
         except symx.PathAbort:
+            for label, verdict, _ in E.path.obls:
+                if verdict == "sat":
+                    return (True, label)
             return (False, "assumptions not met by the values")
         except Exception as ex:
             return (True, "raises %s(%s) on the real code (real struct, real int()/codecs)" % (type(ex).__name__, str(ex)[:100]))
